@@ -116,7 +116,7 @@ const VAR_POOL: [&[&str]; 4] = [
     &["Gene_1", "g2", "EXt", "A_b", "z9"],
 ];
 
-pub const LABEL_POOL: [&str; 8] = ["d", "p", "q", "s1", "dom_2", "A", "w", "e0"];
+pub const LABEL_POOL: [&str; 12] = ["d", "p", "q", "s1", "dom_2", "A", "w", "e0", "1", "0", "true", "False"];
 
 /// Read-once random monotone-per-literal expression over the given signed literals.
 fn read_once(rng: &mut Rng, lits: &mut Vec<String>) -> String {
